@@ -25,8 +25,12 @@ Definition pmem (q : qid) (s : pset) : bool := match PositiveMap.find q s with S
 (* ---------- DFA sanity ---------- *)
 Definition nomatch (d : dfa) (q : qid) : bool := match dmatch d q with [] => true | _ => false end.
 
+Fixpoint nodupb (l : list N) : bool :=
+  match l with [] => true | x :: r => negb (existsb (N.eqb x) r) && nodupb r end.
+
 Definition dfa_ok (d : dfa) : bool :=
-  is_none (PositiveMap.find (d_dead d) (d_states d))
+  forallb (fun kv => nodupb (d_match (snd kv))) (PositiveMap.elements (d_states d))
+  && is_none (PositiveMap.find (d_dead d) (d_states d))
   && nomatch d (d_start d)
   && forallb (fun u => nomatch d (dstep d (d_start d) u)) all_units
   && forallb (fun kv => negb (win_tie (win d (fst kv)))) (PositiveMap.elements (d_states d)).
